@@ -1273,6 +1273,30 @@ func (f *Field) Import(rowIDs, columnIDs []uint64, timestamps []*time.Time, opts
 	return nil
 }
 
+// growBitDepthTo raises the field's bit depth to cover the values stored in
+// frag, a fragment of the field's bsiGroup view whose contents were copied
+// from another node.
+func (f *Field) growBitDepthTo(frag *fragment) error {
+	bsig := f.bsiGroup(f.name)
+	if bsig == nil {
+		return nil
+	}
+	max := frag.highestRowID()
+	if max < bsiOffsetBit {
+		return nil
+	}
+	depth := uint(max-bsiOffsetBit) + 1
+
+	f.mu.Lock()
+	defer f.mu.Unlock()
+	if depth <= bsig.BitDepth {
+		return nil
+	}
+	bsig.BitDepth = depth
+	f.options.BitDepth = depth
+	return f.saveMeta()
+}
+
 // importValue bulk imports range-encoded value data.
 func (f *Field) importValue(columnIDs []uint64, values []int64, options *ImportOptions) error {
 	viewName := viewBSIGroupPrefix + f.name
